@@ -50,6 +50,18 @@ CLAIMS["C25"] = {
     "note": TB + "Documents are modelled with fragments numbered so that a fragment only spreads lower-numbered ones (any acyclic document); validation supplies acyclicity in the real code.",
 }
 
+CLAIMS["C10"] = {
+    "technique": "Lean 4 proof over hand model + exhaustive correspondence (names, numeric literals); type round-trip explored on the implementation",
+    "text": "Theorems for all strings / all integers: Name validity = [_A-Za-z][_0-9A-Za-z]* (name_valid_iff, nameStart_iff); IntValue and FloatValue "
+            "syntax checks accept exactly the October-2021 IntValue / FloatValue token texts written as explicit decompositions "
+            "(int_valid_iff_spec, float_valid_iff_spec — after the fix requiring ≥1 exponent digit); every integer prints to a valid IntValue "
+            "(int_from_i32_valid) and every text of the shape Rust prints for a finite f64 becomes a valid FloatValue (float_text_valid, shape "
+            "hypothesis explicit and checked on 200k+ floats). Correspondence: all strings ≤5/6 over 11 symbols through Name::new, serde Name/"
+            "IntValue/FloatValue; i32 and f64 printing. PARTIAL: numeric round-trip (parse back to the same number) and the type-reference "
+            "print→parse round-trip (all types of depth ≤6/7 over two names) are evaluated on the implementation only, not proved.",
+    "note": TB + "Rust's i32/f64 Display and FromStr are trusted (the f64 shape is an explicit hypothesis of float_text_valid, checked at run time); Name bytes vs chars as in C23.",
+}
+
 ALL = [f"C{i:02d}" for i in range(1, 34)]
 NOT_APPLICABLE = {p: "check not built yet in this session (planned, see DESIGN.md §9); not a claim that the technique cannot apply"
                   for p in ALL if p not in CLAIMS}
